@@ -58,11 +58,22 @@ func c19One(o *out, text string, kind string) {
 	var ps influxql.ExecutionPrivileges
 	var perr error
 	var pn interface{}
+	printedBefore := st.String()
 	func() {
 		defer func() { pn = recover() }()
 		ps, perr = st.RequiredPrivileges()
 	}()
 	rp := map[string]interface{}{"op": "privileges", "text": text}
+	// a query: the statement is what it was, and asking again gives the same answer
+	o.checked()
+	if pn == nil {
+		if after := st.String(); after != printedBefore {
+			o.fail("", fmt.Sprintf("RequiredPrivileges changed the statement %q into %q", printedBefore, after), rp)
+		}
+		if ps2, err2 := st.RequiredPrivileges(); privsSexp(ps2) != privsSexp(ps) || (err2 == nil) != (perr == nil) {
+			o.fail("", fmt.Sprintf("RequiredPrivileges of %q gives %v the first time and %v the second", text, ps, ps2), rp)
+		}
+	}
 	o.checked()
 	if pn != nil {
 		o.fail("", fmt.Sprintf("RequiredPrivileges of %q panics: %v", text, pn), rp)
